@@ -75,7 +75,7 @@ def concrete_replay(shape, model, timeout=120, mode=None):
 _STARTED = None
 
 
-def stuck_result(shape, opts, waited):
+def stuck_result(shape, opts, waited, decide=True):
     """the worker of this shape was killed because it did not return: decide by running the real code"""
     out = {'shape': shape.sid, 'describe': None, 'harness_errors': [], 'confirmed': [], 'known_hits': [], 'validated': 0,
            'cli_validated': 0, 'paths': 0, 'queries': 0, 'solver_s': 0.0, 'obligations': 0, 'discharged': 0, 'outcomes': {},
@@ -83,6 +83,8 @@ def stuck_result(shape, opts, waited):
            'inconclusive': f'no return within {waited:.0f}s (stuck inside one call)'}
     try:
         out['describe'] = shape.describe()
+        if not decide:
+            return out
         shape.setup(False)
         model = {n: (s.lo if s.lo is not None else 0) for n, s in shape.case.symbols().items()} if hasattr(shape, 'case') else {}
         shape.teardown()
@@ -374,7 +376,10 @@ def _run_property(mod, tier, seed, prop, t0, known, shapes, budget, opts, nproc,
                         pass
                     finished.add(sid)
                     done += 1
-                    results.append(stuck_result(by_sid[sid], opts, time.time() - ts))
+                    # (the real-code run that decides a stuck shape takes up to 40 s: at most three of them per check)
+                    n_stuck = sum(1 for r in results if str(r.get('inconclusive') or '').startswith('no return') or
+                                  any(v.get('outcome') == 'nonterminating' for v in r['confirmed']))
+                    results.append(stuck_result(by_sid[sid], opts, time.time() - ts, decide=n_stuck < 3))
     extra_errors = []
     if hasattr(mod, 'extra_checks'):
         try:
@@ -437,6 +442,9 @@ def finish(mod, tier, seed, shapes, results, unexplored, known, wall, extra_erro
         elif len(inconc) > 0.2 * n:
             rc = 3
             lines.append(f'HARNESS-ERROR {prop}: {len(inconc)}/{n} shapes inconclusive: {inconc[:5]}')
+        elif unexplored > 0.2 * len(shapes):
+            rc = 3
+            lines.append(f'HARNESS-ERROR {prop}: {unexplored}/{len(shapes)} shapes not explored within the budget of {mod.BUDGET_S[tier]}s')
     for s, why in inconc[:10]:
         lines.append(f'inconclusive: shape={s}: {why}')
     ev = {
